@@ -120,6 +120,39 @@ S = ('name', '$S')        # sign-extended R
 V = ('param', '$V')
 Q = ('name', '$Q')        # rounded quotient
 
+_KNOWN_CALLS = {'int', 'round', 'len', 'str', 'bytes', 'bool', 'float', 'abs', 'min', 'max', 'divmod', 'isinstance', 'ValueError', 'TypeError', 'Exception', 'OverflowError',
+                'isclose', 'date', 'time', 'timedelta', 'datetime', 'range', 'tuple', 'list', 'pow', 'sum', 'bytearray', 'hex', 'format', 'repr', 'type', 'sorted', 'reversed', 'any', 'all'}
+_KNOWN_ROOTS = {'math', 'struct', 'int', 'datetime', 'date', 'time', 'timedelta', 'binascii', 'float', 'str', 'bytes', 'logger', 'logging', 'operator', 'itertools', 'functools'}
+
+def unfollowed(t):
+    """what in a residual term was not followed by the partial evaluator: a call of a function that is neither a builtin nor a standard-library name, or a
+    module-level name left standing (a table, an object of another module).  A reading that fails on such a term has read nothing: it is no verdict."""
+    out = []
+    for s_ in sym.walk(t):
+        if s_[0] == 'call':
+            f = s_[1]
+            if f[0] == 'name' and not f[1].startswith('$') and f[1] not in _KNOWN_CALLS:
+                out.append(f[1] + '()')
+            elif f[0] == 'attr':
+                b = f[1]
+                while b[0] in ('attr', 'sub'):
+                    b = b[1]
+                if b[0] == 'call' and b[1][0] == 'name' and b[1][1] not in _KNOWN_CALLS:
+                    out.append(b[1][1] + '()')
+                elif b[0] == 'name' and not b[1].startswith('$') and b[1] not in _KNOWN_ROOTS:
+                    out.append(b[1])
+        elif s_[0] in ('sub', 'attr') and s_[1][0] == 'name' and not s_[1][1].startswith('$') and s_[1][1] not in _KNOWN_ROOTS:
+            out.append(s_[1][1])
+    return sorted(set(out))
+
+def rows_unfollowed(rows):
+    out = []
+    for r in rows:
+        for t in list(r[1]) + [r[2]]:
+            if isinstance(t, tuple):
+                out += unfollowed(t)
+    return sorted(set(out))
+
 def extract_forms(off, n):
     mask = (1 << n) - 1
     sh = D if off == C(0) else ('binop', '>>', D, off)
@@ -409,6 +442,9 @@ def help_dec(chk, program, rule='HELP-DEC'):
         rows = residual(program, 'decode_int', {'data_raw': D, 'bit_offset': OFF, 'bit_length': C(n)})
         r1 = norm_rows(rows, [{f: R for f in extract_forms(OFF, n)}])
         got = [(k, gs, v) for (k, gs, v, _) in r1]
+        if got != [('return', (), R)] and rows_unfollowed(rows):
+            chk.unknown(rule, f"decode_int@bits={n}", f"decode_int hands the extraction to code that was not followed: {rows_unfollowed(rows)}", UT, rows[0][3] if rows else 0)
+            continue
         chk.check(got == [('return', (), R)], rule, f"decode_int@bits={n}", file=UT, line=rows[0][3] if rows else 0, func='decode_int',
                   expected=f"(data >> BitOffset) & {(1 << n) - 1}", found=[show(v) for (_, _, v, _) in rows])
     chk.unit('decode_int_residuals', len(lens))
@@ -691,6 +727,9 @@ def sent_sign_agree(chk, program, sites=None):
         f = encode_number_facts(program, n, s, res)
         users = [u for (n2, s2, r), us in nt.items() if (n2, s2) == (n, s) for u in us]
         inst = f"bits={n},signed={s}"
+        if f['problems']:
+            chk.unknown('SENT-AGREE', f"encode_number::{inst}", f"encode_number not read: {f['problems'][0]}", UT, f['line'])
+            continue
         if dna == NOT_DETERMINED:
             chk.unknown('SENT-AGREE', f"encode_number::{inst}", "the decoder's not-available code could be neither read off decode_number nor found by evaluating it", UT, f['line'])
         elif n < 2 and dna is None and f['na'] is not None:
@@ -761,6 +800,10 @@ def enc_range(chk, program):
     chk.floor('encode_number_residuals', len(nt), 40)
 
 # ---------------------------------------------------------------------------
+def A_followed(v):
+    from . import absint as A
+    return not isinstance(v, A.AOpaque) and v is not None
+
 def help_siblings(chk, program, rule='HELP-SIB'):
     """decode_float/encode_float share struct formats; decode_date/encode_date share the epoch; decode_time's
     decomposition is the inverse of encode_time's affine form"""
@@ -788,7 +831,9 @@ def help_siblings(chk, program, rule='HELP-SIB'):
         sem = (okd and oke, {'decode_float(raw)': repr(d), 'encode_float(f)': repr(e)})
     except (A.Unknown, A.RaiseSignal, AnalysisError) as u:
         chk.unit('float_helpers_not_interpretable', str(u))
-    if sem is not None:
+    if sem is not None and not sem[0] and (not A_followed(d) or not A_followed(e)):
+        chk.unknown(rule, 'float-formats', f"float helpers hand over to code that was not followed: {sem[1]}", UT, hs['decode_float'].lineno)
+    elif sem is not None:
         chk.check(sem[0], rule, 'float-formats', file=UT, line=hs['decode_float'].lineno, expected='decode_float: the single whose bit pattern is raw[0:32]; encode_float: the integer whose bits are the single\'s bit pattern',
                   found=sem[1] if not sem[0] else 'ok')
     else:
@@ -806,7 +851,11 @@ def help_siblings(chk, program, rule='HELP-SIB'):
                 return tuple(a.value for a in n.args)
         return None
     de, ee = epoch('decode_date'), epoch('encode_date')
-    chk.check(de == ee == (1970, 1, 1), rule, 'date-epoch', file=UT, line=hs['decode_date'].lineno, expected=[1970, 1, 1], found={'decode': de, 'encode': ee},
+    if de is None or ee is None:
+        # no date(<y>, <m>, <d>) literal in one of the helpers: the epoch lives elsewhere (a module constant, a class): nothing was read
+        chk.unknown(rule, 'date-epoch', f"no literal date(y, m, d) in decode_date / encode_date: {de} / {ee}", UT, hs['decode_date'].lineno)
+    else:
+      chk.check(de == ee == (1970, 1, 1), rule, 'date-epoch', file=UT, line=hs['decode_date'].lineno, expected=[1970, 1, 1], found={'decode': de, 'encode': ee},
               detail='database DATE = days since 1970-01-01')
     # encode_time affine: hour*3600 + minute*60 + second
     p0 = [a.arg for a in hs['encode_time'].args.args][0]
@@ -818,7 +867,10 @@ def help_siblings(chk, program, rule='HELP-SIB'):
     for (k, gs, v, ln) in rows:
         if k == 'return' and not sym.is_const(v):
             coeffs = _affine_attrs(v)
-    chk.check(coeffs == {'hour': 3600, 'minute': 60, 'second': 1}, rule, 'encode_time-affine', file=UT, line=hs['encode_time'].lineno,
+    if coeffs is None and (rows_unfollowed(rows) or not any(k == 'return' and not sym.is_const(v) for (k, gs, v, ln) in rows)):
+        chk.unknown(rule, 'encode_time-affine', f"encode_time's value is computed by code that was not followed: {rows_unfollowed(rows)}", UT, hs['encode_time'].lineno)
+    else:
+      chk.check(coeffs == {'hour': 3600, 'minute': 60, 'second': 1}, rule, 'encode_time-affine', file=UT, line=hs['encode_time'].lineno,
               expected={'hour': 3600, 'minute': 60, 'second': 1}, found=coeffs)
     # decode_time: hours = s // 3600; minutes = (s % 3600) // 60; seconds = s % 60
     fn = hs['decode_time']
@@ -926,7 +978,10 @@ def help_strings(chk, program, rule='HELP-STR'):
     d, o = ('param', ex.params[0]), ('param', ex.params[1])
     shifted = ('binop', '>>', d, o)
     rets = [e for e in ex.events if e[0] == 'return' and e[2][0] == 'tuple' and len(e[2][1]) == 2]
-    chk.check(len(rets) >= 1, rule, 'decode_string_lau::returns-pair', file=UT, line=fn.lineno, func='decode_string_lau', expected='(text, bits to skip)', found=len(rets), nontrivial=False)
+    if not rets:
+        chk.unknown(rule, 'decode_string_lau::returns-pair', 'decode_string_lau returns no literal pair: the text and the skip are computed by code that was not followed', UT, fn.lineno)
+    else:
+        chk.check(True, rule, 'decode_string_lau::returns-pair', file=UT, line=fn.lineno, func='decode_string_lau', expected='(text, bits to skip)', found=len(rets), nontrivial=False)
     for e in rets:
         skip = e[2][1][1]
         # the short-input path returns len(byte_arr) (0/1 byte available): accepted as is; the regular path must be 8 * first byte
@@ -935,6 +990,9 @@ def help_strings(chk, program, rule='HELP-STR'):
         if short:
             continue
         ok = False
+        shape = False
+        if skip[0] == 'binop' and skip[1] == '<<' and skip[3] == C(3):
+            skip = ('binop', '*', skip[2], C(8))
         for a, b in ((skip[2], skip[3]), (skip[3], skip[2])) if skip[0] == 'binop' and skip[1] == '*' else ():
             if b == C(8) and a[0] == 'sub' and a[2] == C(0):
                 ba = a[1]
@@ -942,6 +1000,14 @@ def help_strings(chk, program, rule='HELP-STR'):
                 if ba[0] == 'call' and ba[1][0] == 'attr' and ba[1][2] == 'to_bytes' and ba[1][1] == shifted:
                     order = dict(ba[3]).get('byteorder', ba[2][1] if len(ba[2]) > 1 else None)
                     ok = order == C('little')
+                    shape = order is not None and sym.is_const(order)
+        # a witness for "wrong": the first byte of the wrong byte order, or a skip computed from the decoded text (its length in characters is
+        # not the length byte for non-ASCII text).  Any other spelling the reading does not know is no verdict.
+        from_text = any(s_[0] == 'call' and s_[1][0] == 'attr' and s_[1][2] == 'decode' for s_ in sym.walk(skip)) or \
+            any(s_[0] == 'call' and s_[1] == ('name', 'str') and len(s_[2]) >= 2 for s_ in sym.walk(skip))
+        if not ok and not shape and not from_text:
+            chk.unknown(rule, 'decode_string_lau::skip', f"the skip is spelt in a way the reading does not know: {show(skip)[:120]}", UT, e[-1])
+            continue
         chk.check(ok, rule, 'decode_string_lau::skip', file=UT, line=e[-1], func='decode_string_lau',
                   expected='bits to skip = 8 * <length byte = first byte of (data >> bit_offset) little-endian>', found=show(skip)[:160],
                   detail='' if ok else 'every field after the string would be read at the wrong offset whenever the skip differs from the length byte (non-ASCII text, surrogate pairs)')
@@ -951,5 +1017,8 @@ def help_strings(chk, program, rule='HELP-STR'):
         r1 = norm_rows(rows, [{f: R for f in extract_forms(OFF, 64)}])
         used = any(s_ == R for (_, gs, v, _) in r1 for t in (list(gs) + [v]) for s_ in sym.walk(t))
         left = any(s_ == D for (_, gs, v, _) in r1 for t in (list(gs) + [v]) for s_ in sym.walk(t))
-        chk.check(used and not left, rule, 'decode_string_fix::extract', file=UT, line=fx.lineno, func='decode_string_fix',
+        if not (used and not left) and rows_unfollowed(rows):
+            chk.unknown(rule, 'decode_string_fix::extract', f"decode_string_fix hands the extraction to code that was not followed: {rows_unfollowed(rows)}", UT, fx.lineno)
+        else:
+          chk.check(used and not left, rule, 'decode_string_fix::extract', file=UT, line=fx.lineno, func='decode_string_fix',
                   expected='text taken from exactly the BitLength bits at BitOffset', found=[show(v)[:100] for (_, _, v, _) in rows][:2])
